@@ -9,6 +9,28 @@ Slot::close.  The oneshot channel is a stand-in: `send` is witnessed by `sent(tx
 NAME = "slot"
 PROPERTIES = ["C13"]
 S = "metrique/src/slot.rs"
+VARIANT_DEFAULTS = {"slot_inv": "exclusive"}
+
+def r_async(text):
+    """RA: `.await` -> `.verif_await()`: awaiting the oneshot receiver is a call that returns when the sender was consumed or dropped
+    (the `async` keyword of the signature is dropped by sig_replace); suspension points have no effect on the slot's own fields, which
+    are exclusively borrowed for the whole call"""
+    n = text.count(".await")
+    return text.replace(".await", ".verif_await()"), n
+
+
+def _inv_text(repo, variant, bu):
+    inv = (variant or {}).get("slot_inv", "exclusive")
+    body = {"exclusive": "!(data_some && rx_some)", "open": "true"}[inv]
+    return ("// representation invariant of Slot between calls (variant `%s`): the receiver is given up when the value is stored\n"
+            "pub open spec fn slot_inv(data_some: bool, rx_some: bool) -> bool { %s }\n" % (inv, body))
+
+
+def r_async_call(text):
+    """RA2: `f().await` where f is an async fn of this unit verified as an ordinary fn (RA): `.await` is dropped"""
+    n = text.count(".await")
+    return text.replace(".await", ""), n
+
 
 PRELUDE = r'''
 pub assume_specification<T>[ std::mem::replace ](dest: &mut T, src: T) -> (r: T) ensures r == *old(dest), *final(dest) == src;
@@ -42,6 +64,9 @@ pub mod oneshot {
         // whether a value is waiting right now: an arbitrary answer
         #[verifier::external_body]
         pub fn is_empty(&self) -> bool { unimplemented!() }
+        // RA: `rx.await` - returns once the sender was consumed (Ok: the value it sent) or dropped unsent (Err)
+        #[verifier::external_body]
+        pub fn verif_await(self) -> (r: Result<V, TryRecvError>) ensures r is Ok ==> delivered(self, r->Ok_0) { unimplemented!() }
     }
 }
 '''
@@ -63,8 +88,10 @@ ITEMS = [
             oneshot::paired(r.0.slot->tx, r.1.rx),
             r.0.parent_drop_mode is Discard,
          """),
+    dict(kind="raw", label="slot_inv", text=_inv_text),
     dict(kind="fn", file=S, impl=_SLOT, name="new", ret="r", label="Slot::new",
          ensures="""
+            slot_inv(r.data is Some, r.rx is Some),
             r.tx is Some && r.tx->0.slot is Writable && r.tx->0.slot->value == value,
             r.rx is Some && r.data is None,
             oneshot::paired(r.tx->0.slot->tx, r.rx->0.rx),
@@ -104,9 +131,26 @@ ITEMS = [
          """),
     dict(kind="fn", file=S, impl=r"^impl < T > Waiting < T >$", name="take_value", ret="r", label="Waiting::take_value",
          ensures="r is Some ==> oneshot::delivered(self.rx, r->0),"),
+    dict(kind="fn", file=S, impl=r"^impl < T > Waiting < T >$", name="wait_for_value", ret="r", label="Waiting::wait_for_value", only_if={"slot_inv": "exclusive"},
+         sig_replace=[("async fn", "fn")], rules={"r_async": 1}, extra_rewrites=[r_async],
+         ensures="r is Some ==> oneshot::delivered(self.rx, r->0),"),
+    dict(kind="fn", file=S, impl=_SLOT, name="wait_for_data", ret="r", label="Slot::wait_for_data", only_if={"slot_inv": "exclusive"},
+         sig_replace=[("pub async fn", "pub fn")], rules={"r_async_call": 1}, extra_rewrites=[r_async_call],
+         requires="slot_inv(old(self).data is Some, old(self).rx is Some),",
+         ensures="""
+            // C13 (waiting for data): the value the guard sent is stored - never dropped - and what was stored before stays
+            old(self).rx is None ==> *r == old(self).data,                                          // OBL wait_keeps_stored_data
+            old(self).rx is Some ==> (*r is Some ==> oneshot::delivered(old(self).rx->0.rx, (*r)->0)),   // OBL wait_stores_the_delivered_value
+            // the invariant close() relies on holds when the call returns
+            slot_inv(*r is Some, final(self).rx is Some),                                           // OBL wait_preserves_the_slot_invariant
+            final(self).data == *final(r), final(self).tx == old(self).tx,
+         """),
     dict(kind="fn", file=S, impl=r"^impl < T : CloseValue > CloseValue for Slot < T >$", name="close", ret="r", label="Slot::close",
          impl_header_override="impl<T: CloseValue> Slot<T>", sig_replace=[("Self::Closed", "Option<T::Closed>")],
-         requires="(self.data is Some) != (self.rx is Some),   // type invariant: the receiver is taken exactly when data is stored (wait_for_data)",
+         requires="""
+            slot_inv(self.data is Some, self.rx is Some),   // representation invariant (established by new, kept by open and wait_for_data)
+            self.data is Some || self.rx is Some,           // a guard's close() that panics leaves neither (the `unreachable!` arm): outside the property
+         """,
          ensures="""
             // C13: closing the parent takes the value without waiting: what was already stored, else what the channel holds right now
             self.data is Some ==> r == self.data,                                                  // OBL close_prefers_received_data
